@@ -206,6 +206,26 @@ func DegenerateShapes(r *R) []Degenerate {
 		f.Services = []*ir.Service{svcFor("d.flatmutual", "A", "B")}
 		add("flatten_mutual_cycle", f)
 	}
+	// 12d. path variables no request field is named after (in the base path, in the method path), on a
+	// body verb (the Go plugins refuse or accept: either way every plugin must ANSWER)
+	{
+		f := mk("unboundvar", "d.unboundvar")
+		f.Messages = []*ir.Message{{Name: "Q", Fields: []*ir.Field{{Name: "item_id", Number: 1, Kind: "string"}, {Name: "v", Number: 2, Kind: "string"}}}}
+		f.Services = []*ir.Service{{Name: "Svc", BasePath: "/tenants/{tenant}", Methods: []*ir.Method{
+			{Name: "Do", Input: ".d.unboundvar.Q", Output: ".d.unboundvar.Q", Config: &ir.HTTPConfig{Path: "/items/{id}", Method: "POST"}},
+			{Name: "Get", Input: ".d.unboundvar.Q", Output: ".d.unboundvar.Q", Config: &ir.HTTPConfig{Path: "/items/{item_id}/{missing_}", Method: "PUT"}}}}}
+		add("path_variable_without_field", f)
+	}
+	// 12e. oneofs with oneof_config named with a trailing / doubled underscore, one-letter names
+	for _, on := range []string{"payload_", "event__body", "_x", "c"} {
+		f := mk("oneofname", "d.oneofname")
+		f.Messages = []*ir.Message{
+			{Name: "T", Fields: []*ir.Field{{Name: "body", Number: 1, Kind: "string"}}},
+			{Name: "E", Oneofs: []*ir.Oneof{{Name: on, HasConfig: true, Discriminator: sp("type"), Flatten: on != "c"}},
+				Fields: []*ir.Field{{Name: "id", Number: 1, Kind: "string"}, {Name: "t", Number: 2, Kind: "message", TypeName: ".d.oneofname.T", Oneof: on}}}}
+		f.Services = []*ir.Service{svcFor("d.oneofname", "E", "E")}
+		add("oneof_named_"+on, f)
+	}
 	// 13. recursive annotated types: flatten child that refers back, unwrap of self
 	{
 		f := mk("annrec", "d.annrec")
